@@ -998,4 +998,45 @@ theorem accept_ranked_order_independent (cfg : RankedCfg) {rs rs' : List Obj}
     validateRanked cfg (.tuple rs) = .ok () ↔ validateRanked cfg (.tuple rs') = .ok () := by
   rw [validate_iff_valid_ranked_anyset, validate_iff_valid_ranked_anyset, valid_ranked_perm cfg h]
 
+/-! ## sanity of the rule itself -/
+
+/-- with the constructor defaults (no total bound, exactly one candidate per rank, basic nominator) a
+    tuple of names is a valid ranked vote iff no name repeats — and that is what the validator accepts -/
+theorem ranked_default_names (names : List Nat) :
+    validateRanked ⟨Bounds.none, .all ⟨some 1, some 1⟩, .basic true⟩ (.tuple (names.map .str)) = .ok ()
+      ↔ names.Nodup := by
+  rw [validate_iff_valid_ranked_partial _ _ (by
+    simp only [NoMutableSetRank, List.mem_map]
+    rintro r ⟨n, _, rfl⟩; rfl)]
+  have hflat : (names.map Obj.str).flatMap rankCands = names.map Obj.str := by
+    induction names with
+    | nil => rfl
+    | cons n ns ih => simp only [List.map_cons, List.flatMap_cons, rankCands, ih, List.singleton_append]
+  have hinj : Function.Injective Obj.str := fun a b h => by cases h; rfl
+  simp only [ValidRanked, ValidRankedWith, hflat, List.nodup_map_iff hinj]
+  constructor
+  · exact fun h => h.2.1
+  · intro h
+    refine ⟨?_, h, ?_, ?_⟩
+    · intro c hc
+      obtain ⟨n, _, rfl⟩ := List.mem_map.1 hc
+      trivial
+    · simp [Within, Bounds.none]
+    · intro p hp
+      obtain ⟨n, _, hn⟩ := List.mem_map.1 (List.fst_mem_of_mem_zipIdx hp)
+      rw [← hn]
+      simp [Within, BoundMap.get, rankCands]
+
+/-- an approval vote for a set of distinct names is accepted iff their number is within the bounds -/
+theorem approval_names (lo hi : Option Rat) (names : List Nat) (hnd : names.Nodup) :
+    validateApproval ⟨⟨lo, hi⟩, .basic true⟩ (.fset (names.map .str)) = .ok ()
+      ↔ (∀ l ∈ lo, l ≤ names.length) ∧ (∀ h ∈ hi, (names.length : Rat) ≤ h) := by
+  have hinj : Function.Injective Obj.str := fun a b h => by cases h; rfl
+  simp only [validateApproval]
+  rw [bind_ok_iff, forEach_ok_iff, check_ok_iff]
+  simp only [List.mem_map, forall_exists_index, and_imp, forall_apply_eq_imp_iff₂, List.length_map]
+  constructor
+  · exact fun h => h.2
+  · exact fun h => ⟨fun n _ => by simp [nominate, Obj.isStr, Obj.isBlank], h⟩
+
 end VL.C20
